@@ -349,6 +349,36 @@ def validate_first_rule(prog, res):
                         guard = c
                         gdims = R.render(c['id'])
                         gv = g.vertex_of.get(c['id'])
+        helper_stores_dims = False
+        if guard is None:
+            # or in a helper of the class itself that tests and then stores the dimensions (called on this object)
+            from codec import substitute
+            for c in f.calls():
+                cf = prog.funcs.get(c['callee'].get('usr')) if c['callee'].get('inrepo') else None
+                if cf is None or cf.implicit or cf.body is None or cf.cls != PR or cf.qname.endswith('::isDimensionConsistent') or cf.qname.startswith(PR + '::set('):
+                    continue
+                if cf.name == 'set' or not (f.call_obj(c) is None or R.render(f.call_obj(c)) in ('this', '*(this)')):
+                    continue
+                Rc = Renderer(cf)
+                sub = {'arg%d' % k: R.render(a) for k, a in enumerate(f.call_args(c))}
+                gc = cf.events()
+                for i in cf.all_nodes({'IfStmt'}):
+                    cc = Rc.render(i['cond'])
+                    ths = [cf.nodes[x] for x in cf.descendants(i['then']) if cf.nodes[x]['k'] == 'CXXThrowExpr']
+                    m = re.match(r'^!\(this\.isDimensionConsistent\((.*),(.*)\)\)$', cc)
+                    if not (m and ths and all(t.get('throw_t') == 'std::range_error' for t in ths)):
+                        continue
+                    if substitute(m.group(1), sub) != 'arg0.size':
+                        continue
+                    # inside the helper nothing is stored before its test
+                    tv = gc.vertex_of.get(cf.strip(i['cond'], 'all'))
+                    early = [e for e in E.events_of(cf, 'this') if e[1] == 'this' and e[3] != 'io' and not (tv is not None and gc.vertex_of.get(e[0]) is not None and gc.dominates(tv, gc.vertex_of.get(e[0])))]
+                    if early:
+                        continue
+                    guard = c
+                    gdims = R.render(c['id'])
+                    gv = g.vertex_of.get(c['id'])
+                    helper_stores_dims = any(e[2] and e[2][0] == '_dimension' for e in E.events_of(cf, 'this'))
         if guard is None:
             import maythrow as MT
             M = MT.get(prog)
@@ -400,7 +430,9 @@ def validate_first_rule(prog, res):
             problems.append('also writes %s' % sorted(set(stores) - {'_data_type', field, '_dimension'}))
         # dimension: the validated dims (for strings: with the longest string length prepended)
         dimsrc = stores.get('_dimension', '')
-        if field != '_param_data_string':
+        if helper_stores_dims:
+            pass   # the helper that made the test stored the dimensions it tested
+        elif field != '_param_data_string':
             if dimsrc != gdims:
                 problems.append('_dimension <- %s, the validated dimensions are %s' % (dimsrc, gdims))
         else:
@@ -559,6 +591,32 @@ def lock_rule(prog, res):
             res.viol('lock', 'c3d::' + name, f.loc(), 'locking/unlocking a group changes more than its flag: %s' % [FX.fmt(e) for e in effs], function=f.sig, expr='flag')
 
 
+def overload_hazard_rule(prog, res):
+    """an overload set offering both f(bool) and f(std::string) at the same position, without f(const char *): a string
+    literal (or any const char *) prefers the standard pointer-to-bool conversion to the user-defined conversion to
+    std::string, so the text handed in is stored as `true`"""
+    import collections
+    sets = collections.defaultdict(list)
+    for f in prog.repo_funcs():
+        if f.kind in ('method', 'ctor') and f.rec.get('access') == 'public' and not f.implicit:
+            sets[(f.qname, len(f.rec.get('params', [])))].append(f)
+    n = 0
+    for (q, ar), fs in sorted(sets.items()):
+        if ar == 0 or len(fs) < 2:
+            continue
+        n += 1
+        for k in range(ar):
+            ts = [(f.rec['params'][k]['type'].replace('const ', '').replace(' &', '').strip(), f) for f in fs]
+            hasbool = [f for t, f in ts if t in ('bool', '_Bool')]
+            hasstr = [f for t, f in ts if t in ('std::basic_string<char>', 'std::string')]
+            hascp = [f for t, f in ts if t in ('char *',)]
+            if hasbool and hasstr and not hascp:
+                res.viol('overload-hazard', '%s (parameter %d)' % ('::'.join(q.split('::')[-2:]), k), hasbool[0].loc(), 'the overload set offers (bool) and (std::string) but not (const char *): a string literal argument '
+                         'selects the bool overload (pointer-to-bool is a standard conversion, to std::string a user-defined one) and the text is stored as `true`', function=hasbool[0].sig, expr='overload:' + q.split('::')[-1])
+    res.ok('overload-hazard', 'public overload sets', 'include/', '%d overload sets screened for (bool)/(std::string) without (const char *)' % n, function='', expr='overloads', nontrivial=False)
+    res.minimum('public overload sets', n, 10)
+
+
 def run(prog, tier):
     res = Result('C09', tier,
                  'Effect sets (A3) of Group::parameter, Parameters::group and c3d::parameter against the allowed sets; the replace index comes from the '
@@ -579,4 +637,5 @@ def run(prog, tier):
     consistency_width_rule(prog, res)
     lock_rule(prog, res)
     setters.rule(prog, res, {G, PR}, minimum=3)
+    overload_hazard_rule(prog, res)
     return res
